@@ -321,6 +321,8 @@ def _facts(expr: ast.AST, truth: bool) -> set[str]:
             for v in expr.values:
                 out |= _facts(v, False)
         return out
+    if isinstance(expr, ast.Call) and isinstance(expr.func, ast.Name) and expr.func.id == "bool" and len(expr.args) == 1 and not expr.keywords:
+        return _facts(expr.args[0], truth)  # bool(x) is the truthiness of x
     k = chain_key(expr) if isinstance(expr, (ast.Name, ast.Attribute)) else None
     if k is not None:
         return {k} if truth else set()
@@ -380,7 +382,8 @@ def _facts(expr: ast.AST, truth: bool) -> set[str]:
     return out
 
 
-def _guarded_in_expression(sub: ast.Subscript, key: str) -> bool:
+def _guarded_in_expression(sub: ast.Subscript, key: str, facts=None) -> bool:
+    facts = facts or _facts
     cur: ast.AST = sub
     p = parent(cur)
     while p is not None and not isinstance(p, ast.stmt):
@@ -388,14 +391,14 @@ def _guarded_in_expression(sub: ast.Subscript, key: str) -> bool:
             idx = next((i for i, v in enumerate(p.values) if _contains(v, cur)), None)
             if idx is not None:
                 for earlier in p.values[:idx]:
-                    if key in _facts(earlier, isinstance(p.op, ast.And)) and isinstance(p.op, ast.And):
+                    if key in facts(earlier, isinstance(p.op, ast.And)) and isinstance(p.op, ast.And):
                         return True
-                    if isinstance(p.op, ast.Or) and key in _facts(earlier, False):
+                    if isinstance(p.op, ast.Or) and key in facts(earlier, False):
                         return True
         if isinstance(p, ast.IfExp):
-            if _contains(p.body, cur) and key in _facts(p.test, True):
+            if _contains(p.body, cur) and key in facts(p.test, True):
                 return True
-            if _contains(p.orelse, cur) and key in _facts(p.test, False):
+            if _contains(p.orelse, cur) and key in facts(p.test, False):
                 return True
         if isinstance(p, ast.comprehension):
             pass
@@ -484,14 +487,26 @@ def check_subscripts(ctx: Ctx) -> None:
                         (isinstance(d.value, ast.Call) and isinstance(prog.resolve_call(fi, d.value), list))) for d in defs0):
                     n_sub -= 1
                     continue
+            def facts_x(e: ast.AST, truth: bool, at=node) -> set[str]:
+                """facts of a condition, also read through its single-assignment temporaries (n = len(xs) ... if n == 0)"""
+                out_ = _facts(e, truth)
+                if at is not None and any(isinstance(x, ast.Name) for x in ast.walk(e)):
+                    try:
+                        from ..decide import expand_expr as _xp
+                        for d_ in (1, 2, 3):  # one level of temporaries at a time: the fact is about a *name*
+                            out_ |= _facts(_xp(prog, fi, e, at, depth=d_), truth)
+                    except Exception:  # noqa: BLE001
+                        pass
+                return out_
+
             if key is not None:
-                if _guarded_in_expression(sub, key):
+                if _guarded_in_expression(sub, key, facts_x):
                     ok, why = True, "guarded by an earlier operand of the same expression"
                 elif node is not None:
                     facts: set[str] = set()
                     for b, lab in must_edges(flow.cfg, flow.cfg.entry, node) or set():
                         if b.kind == "test":
-                            facts |= _facts(b.ast, lab == "T")
+                            facts |= facts_x(b.ast, lab == "T", b)
                         elif b.kind == "for" and lab == "iter":
                             pass
                     if key in facts:
